@@ -53,8 +53,9 @@ def _one(job):
     out = {'idx': idx, 'engine': engine, 'run_seed': rs, 'digest': r['digest'], 'nontrivial': r['nontrivial'],
            'counters': r['counters'], 'violations': r['violations'], 'steps': r['steps'],
            'sim_seconds': r['sim_seconds'], 'wall': r['wall'], 'sched_keys': r['sched_keys'],
-           'rejects': r['rejects'], 'nrecords': len(r['records'])}
-    if r['violations'] or keep_sample:
+           'rejects': r['rejects'], 'nrecords': len(r['records']), 'calls_by_name': r['calls_by_name'],
+           'soft': r['soft']}
+    if r['violations'] or keep_sample or job[3] == 'plan':
         out['plan'] = r['plan']
     return out
 
@@ -109,6 +110,25 @@ def report_violations(results, seed, tier, do_minimise=True, max_keys=8):
                 groups[k] = (r, v, 0)
             g = groups[k]
             groups[k] = (g[0], g[1], g[2] + 1)
+    # O5.never: a callable that rejected every generated in-domain input of the whole batch
+    calls = collections.Counter()
+    rejs = collections.Counter()
+    first = {}
+    for r in results:
+        if 'harness_error' in r:
+            continue
+        calls.update(r['calls_by_name'])
+        for sv in r['soft']:
+            rejs[sv['name']] += 1
+            first.setdefault(sv['name'], (r, sv))
+    for name in sorted(rejs):
+        if calls[name] >= 20 and rejs[name] == calls[name]:
+            r, sv = first[name]
+            if 'plan' not in r:
+                r = _one((seed, r['engine'], r['idx'], 'plan'))
+            sv = dict(sv)
+            sv['detail'] = dict(sv['detail'], calls_in_batch=calls[name], rejected=rejs[name])
+            groups[('O5.never', name)] = (r, sv, rejs[name])
     known = load_known()
     n_new = n_known = 0
     trouble = False
@@ -305,7 +325,10 @@ def cmd_replay(argv):
     runner.boot()
     r = runner.run_plan(ReplaySource(plan), 300.0)
     hit = False
-    for v in r['violations']:
+    vs = list(r['violations'])
+    if key is not None and key[0] == 'O5.never':
+        vs += [v for v in r['soft'] if (v['oracle'], v['name']) == key]
+    for v in vs:
         k = (v['oracle'], v['name'])
         print('  violation %s in %s (op %s): %s' % (v['oracle'], v['name'], v['op'], json.dumps(v['detail'], default=str)[:500]))
         if key is None or k == key:
